@@ -118,11 +118,14 @@ fn all_ops(w: &model::World) -> Vec<Op> {
         }
         for k in 0..n {
             ops.push(Op::CloneWithin { dom: d as u8, node: sel_for(k, n) });
+            ops.push(Op::PartialWalk { dom: d as u8, node: sel_for(k, n), steps: 2 });
             for t in 0..nd {
                 if t != d {
                     ops.push(Op::CloneIntoExternal { src: d as u8, node: sel_for(k, n), dst: t as u8 });
+                    ops.push(Op::CloneMulti { src: d as u8, nodes: vec![sel_for(k, n), sel_for(k, n)], dst: t as u8, overlap: true });
                     for k2 in (k + 1)..n {
-                        ops.push(Op::CloneMulti { src: d as u8, nodes: vec![sel_for(k, n), sel_for(k2, n)], dst: t as u8 });
+                        ops.push(Op::CloneMulti { src: d as u8, nodes: vec![sel_for(k, n), sel_for(k2, n)], dst: t as u8, overlap: false });
+                        ops.push(Op::CloneMulti { src: d as u8, nodes: vec![sel_for(k, n), sel_for(k2, n)], dst: t as u8, overlap: true });
                     }
                 }
             }
@@ -241,7 +244,8 @@ pub fn large_histories(thorough: bool) -> Vec<History> {
                 Op::TransferWithin { dom: 0, node: 20_000, dest: 50_000 },
                 Op::Transfer { src: 0, node: 10_000, dst: 1, dest: 0 },
                 Op::CloneIntoExternal { src: 0, node: 30_000, dst: 1 },
-                Op::CloneMulti { src: 0, nodes: vec![5_000, 60_000], dst: 1 },
+                Op::CloneMulti { src: 0, nodes: vec![5_000, 60_000], dst: 1, overlap: false },
+                Op::PartialWalk { dom: 0, node: 9_000, steps: 5 },
                 Op::Transfer { src: 1, node: 30_000, dst: 0, dest: 65_535 },
                 Op::Destroy { dom: 0, node: 100 },
                 Op::Insert { dom: 0, parent: Some(33_000), tree: big_tree(0, 1500) },
@@ -435,7 +439,7 @@ fn common(ctx: &Ctx, property: &'static str, rule: &str, floors: &[(&str, u64)],
     rep.assume("reference model executes the documented meaning (docs comments of rbx_dom_weak::WeakDom) and learns fresh referents / regenerated ids from the real DOM by structural correspondence");
     let sub = crate::engine::replay_subcheck_or_all(ctx);
     if sub.runs("histories") {
-        let cases = ctx.cfg.cases(100_000, 1_500_000);
+        let cases = ctx.cfg.cases(50_000, 1_500_000);
         let max_ops = ctx.cfg.tier.pick(25, 60);
         let mut r = ctx.run_prop(
             "histories",
@@ -635,7 +639,7 @@ fn dupfile_body(case: &DupFile, ctx: &mut CaseCtx) -> PropResult {
         return Err(Fail::new("harness:load-shape", format!("{} instances decoded, {} written", got.len(), n)));
     }
     let held: Vec<rbx_types::UniqueId> = got.iter().flatten().copied().collect();
-    let distinct: HashSet<_> = held.iter().copied().collect();
+    let distinct: HashSet<model::Uk> = held.iter().copied().map(model::Uk).collect();
     let key = |k: &str| if case.xml { "c12:xml-reader-bypasses-id-set".to_string() } else { k.to_string() };
     if distinct.len() != held.len() {
         return Err(Fail::new(
@@ -644,8 +648,9 @@ fn dupfile_body(case: &DupFile, ctx: &mut CaseCtx) -> PropResult {
         ));
     }
     // every id of the file that is not nil is kept by exactly one instance
-    for want in ids.iter().flatten().collect::<HashSet<_>>() {
-        let kept = held.iter().filter(|h| *h == want).count();
+    for want in ids.iter().flatten().map(|u| model::Uk(*u)).collect::<HashSet<_>>() {
+        let kept = held.iter().filter(|h| model::Uk(**h) == want).count();
+        let want = &want.0;
         if kept != 1 {
             return Err(Fail::new(
                 key("c12:file-id-not-kept-once"),
@@ -677,11 +682,11 @@ fn now_concurrent(ctx: &Ctx) -> SubReport {
             .collect();
         hs.into_iter().map(|h| h.join().unwrap()).collect()
     });
-    let mut seen: HashSet<rbx_types::UniqueId> = HashSet::with_capacity(per * threads);
+    let mut seen: HashSet<model::Uk> = HashSet::with_capacity(per * threads);
     let mut dup = None;
     for v in &results {
         for u in v {
-            if !seen.insert(*u) {
+            if !seen.insert(model::Uk(*u)) {
                 dup = Some(*u);
             }
         }
